@@ -6,7 +6,7 @@ import ast
 from ..model import FS, FCFG
 from . import names
 from .common import site_of
-from .flow import (Oblig, calls, events, deps_of, arg_deps, SELF, P, has_fact, escaping_raises, short_exc, _path_to)
+from .flow import (both_answers, Oblig, calls, events, deps_of, arg_deps, SELF, P, has_fact, escaping_raises, short_exc, _path_to)
 
 EXPLANATION = (
     "Decides: the completer unifies only fresh copies of both feature structures and gives the copy to the new state "
@@ -188,7 +188,7 @@ def run(eng, rep, tier):
     consts = {ev.value.const for ev in ss.events if ev.kind == "ret" and ev.value is not None and ev.value.has_const()}
     rec = [ev for ev, _ in calls(ss, "subsumes", own=True)]
     ob.decide("R1", "C18.4", fs_, "subsumes-value-and-every-feature",
-              consts == {True, False} and bool(rec) and any(ev.kind == "compare" and "value" in ev.site.text for ev in ss.events)
+              both_answers(ss) and bool(rec) and any(ev.kind == "compare" and "value" in ev.site.text for ev in ss.events)
               and any(ev.kind == "member" and "content" in ev.site.text for ev in ss.events),
               "subsumes compares the values, requires every feature of the receiver and recurses",
               "subsumes does not compare (value, presence of every feature, sub-structures)", ss,
